@@ -303,6 +303,20 @@ impl TransactionTracker {
         }
     }
 
+    // (references held by users, valid savepoints, persistent savepoints); references that only pin
+    // the durable ancestor of a pending non-durable commit are not counted
+    #[cfg(redb_verif)]
+    pub(crate) fn verif_counts(&self) -> (u64, u64, u64) {
+        let state = self.state.lock().unwrap();
+        let total: u64 = state.live_read_transactions.values().sum();
+        let pins = state.pending_non_durable_commits.len() as u64;
+        (
+            total.saturating_sub(pins),
+            state.valid_savepoints.len() as u64,
+            state.persistent_savepoints.len() as u64,
+        )
+    }
+
     pub(crate) fn any_savepoint_exists(&self) -> bool {
         !self.state.lock().unwrap().valid_savepoints.is_empty()
     }
